@@ -253,12 +253,14 @@ package decoder
 //@   props C20 C11 C06 C05
 //@   requires bufOK(buf, cursor)
 //@   ensures err == nil ==> cursor < c && c < len(buf)
+// a skipped number is a JSON number too (the value is ignored, its syntax is not)
+//@   ensures err == nil ==> forall s0 :: cursor <= s0 && s0 < c && wsRun(buf, cursor, s0) && (buf[s0] == '-' || digit(buf[s0])) ==> jsonNum(ptrOf(buf) + s0, c - s0)
 //@   assigns nothing
-//@   loop 1: invariant old(cursor) <= cursor && cursor < len(buf)
+//@   loop 1: invariant old(cursor) <= cursor && cursor < len(buf) && wsRun(buf, old(cursor), cursor)
 //@   loop 1: decreases len(buf) - cursor
 //@   loop 2: invariant old(cursor) <= cursor && cursor < len(buf) && buf[cursor] != 0
 //@   loop 2: decreases len(buf) - cursor
-//@   loop 3: invariant old(cursor) <= cursor && cursor < len(buf) && buf[cursor] != 0
+//@   loop 3: invariant start <= cursor && cursor < len(buf) && buf[cursor] != 0 && old(cursor) <= start && wsRun(buf, old(cursor), start) && (buf[start] == '-' || digit(buf[start]))
 //@   loop 3: decreases len(buf) - cursor
 
 //@ func skipObject(buf, cursor, depth) (c, err)
@@ -765,4 +767,54 @@ package decoder
 //@   props C09 C15 C06
 //@   requires wfStream(s)
 //@   ensures err == nil ==> wfStream(s) && (s.cursor == old(s.cursor) + 3 || s.cursor == old(s.cursor) + 9) && s.cursor + 1 < len(s.buf) && len(chars) >= 1 && len(chars) <= 4
+//@   assigns all
+
+// ---------------------------------------------------------------- JSON number grammar (C05)
+// The RFC 8259 number grammar as a DFA (same as in the encoder package): 0 start, 1 after '-', 2 after a
+// leading 0, 3 in the integer digits, 4 after '.', 5 in the fraction, 6 after e|E, 7 after the exponent
+// sign, 8 in the exponent, 9 dead.
+//@ spec isDig(c) := c >= '0' && c <= '9'
+//@ spec numStep(q, c) := (q == 0 ? (c == '-' ? 1 : (c == '0' ? 2 : (isDig(c) ? 3 : 9))) : (q == 1 ? (c == '0' ? 2 : (isDig(c) ? 3 : 9)) : (q == 2 ? (c == '.' ? 4 : ((c == 'e' || c == 'E') ? 6 : 9)) : (q == 3 ? (isDig(c) ? 3 : (c == '.' ? 4 : ((c == 'e' || c == 'E') ? 6 : 9))) : (q == 4 ? (isDig(c) ? 5 : 9) : (q == 5 ? (isDig(c) ? 5 : ((c == 'e' || c == 'E') ? 6 : 9)) : (q == 6 ? ((c == '+' || c == '-') ? 7 : (isDig(c) ? 8 : 9)) : ((q == 7 || q == 8) ? (isDig(c) ? 8 : 9) : 9))))))))
+//@ spec numAccept(q) := q == 2 || q == 3 || q == 5 || q == 8
+//@ ufun numRun(Int, Int) Int
+// jsonNum(p, n): the n bytes at p are a JSON number
+//@ spec jsonNum(p, n) := numAccept(numRun(p, n))
+
+//@ func isValidNumberToken(b) (ok)
+//@   props C05 C06
+//@   define numRun(ptrOf(b), 0) == 0 && (forall k :: 0 <= k ==> numRun(ptrOf(b), k + 1) == numStep(numRun(ptrOf(b), k), M(ptrOf(b) + k)))
+// soundness: whatever is accepted is a JSON number
+//@   ensures ok ==> jsonNum(ptrOf(b), len(b))
+//@   assigns nothing
+//@   loop 1: invariant 0 <= i && i <= len(b) && (numRun(ptrOf(b), i) == 3 || ((numRun(ptrOf(b), i) == 0 || numRun(ptrOf(b), i) == 1) && i < len(b) && b[i] >= '1' && b[i] <= '9'))
+//@   loop 2: invariant 0 <= i && i <= len(b) && (numRun(ptrOf(b), i) == 5 || (numRun(ptrOf(b), i) == 4 && i < len(b) && isDig(b[i])))
+//@   loop 3: invariant 0 <= i && i <= len(b) && (numRun(ptrOf(b), i) == 8 || ((numRun(ptrOf(b), i) == 6 || numRun(ptrOf(b), i) == 7) && i < len(b) && isDig(b[i])))
+
+// a float is stored only if the token it was parsed from is a JSON number
+//@ func (*floatDecoder).Decode(d, ctx, cursor, depth, p) (c, err)
+//@   props C05 C06
+//@   requires d != nil && ctx != nil && bufOK(ctx.Buf, cursor)
+//@   ensures err != nil ==> ncalls("floatDecoder.op") == old(ncalls("floatDecoder.op"))
+//@   ensures err == nil ==> cursor < c && c < len(old(ctx.Buf))
+//@   ensures err == nil ==> ncalls("floatDecoder.op") == old(ncalls("floatDecoder.op")) || ncalls("floatDecoder.op") == old(ncalls("floatDecoder.op")) + 1
+//@   ghost s := cursor - len(bytes)
+//@   ensures err == nil && ncalls("floatDecoder.op") != old(ncalls("floatDecoder.op")) ==> cursor <= s && s < c && old(wsRun(ctx.Buf, cursor, s)) && jsonNum(ptrOf(old(ctx.Buf)) + s, c - s)
+//@   assigns all
+
+//@ func (*numberDecoder).decodeByte(d, buf, cursor) (res, c, err)
+//@   props C05 C06
+//@   trusted delegates quoted numbers to stringDecoder.decodeByte (trusted); the unquoted branch is the float scanner
+//@   requires d != nil && bufOK(buf, cursor)
+//@   ensures err == nil ==> cursor < c && c < len(buf)
+//@   assigns all
+
+// a json.Number is stored only if its text is a JSON number
+//@ func (*numberDecoder).Decode(d, ctx, cursor, depth, p) (c, err)
+//@   props C05 C06
+//@   requires d != nil && ctx != nil && bufOK(ctx.Buf, cursor)
+//@   ensures err != nil ==> ncalls("numberDecoder.op") == old(ncalls("numberDecoder.op"))
+//@   ensures err == nil ==> ncalls("numberDecoder.op") == old(ncalls("numberDecoder.op")) || ncalls("numberDecoder.op") == old(ncalls("numberDecoder.op")) + 1
+//@   ghost tp := ptrOf(bytes)
+//@   ghost tn := len(bytes)
+//@   ensures err == nil && ncalls("numberDecoder.op") != old(ncalls("numberDecoder.op")) ==> jsonNum(tp, tn)
 //@   assigns all
